@@ -104,7 +104,8 @@ func NewChainDataBase(home string) *ChainDatabase {
 		}
 		// the all-candidates index is only in memory. It must know every registered candidate again,
 		// or the first full re-rank after the restart sees only the candidates changed since
-		for _, val := range newCandidate {
+		// The unregistered ones too, like in a node which did not restart: they wait for the refund of their deposit
+		for _, val := range candidates {
 			db.LastConfirm.CandidateTrieDB.Set(val)
 		}
 		db.LastConfirm.Top.Rank(max_candidate_count, newCandidate)
@@ -741,6 +742,28 @@ func (database *ChainDatabase) GetAllCandidates() ([]common.Address, error) {
 	addresses := make([]common.Address, 0, len(c))
 	for i := 0; i < len(c); i++ {
 		addresses = append(addresses, c[i].Address)
+	}
+	return addresses, nil
+}
+
+// GetAllCandidatesByBlock returns every account which registered as candidate up to the block, on the fork of the block.
+// GetAllCandidates knows only the candidates of stable blocks, and which blocks are stable differs from node to node
+func (database *ChainDatabase) GetAllCandidatesByBlock(hash common.Hash) ([]common.Address, error) {
+	database.RW.RLock()
+	defer database.RW.RUnlock()
+
+	cItem := database.UnConfirmBlocks[hash]
+	if cItem == nil && database.LastConfirm.Block != nil && database.LastConfirm.Block.Hash() == hash {
+		cItem = database.LastConfirm
+	}
+	if cItem == nil {
+		return nil, ErrBlockNotExist
+	}
+
+	candidates := cItem.CandidateTrieDB.GetAll()
+	addresses := make([]common.Address, 0, len(candidates))
+	for i := 0; i < len(candidates); i++ {
+		addresses = append(addresses, candidates[i].Address)
 	}
 	return addresses, nil
 }
